@@ -5,7 +5,7 @@ from checks.models import ALL_MODELS, TOL_BY_MODEL, EXTRA_ARGS
 
 CHECK = Check(
     "C03",
-    props_modules=["OW.Props.C03", "OW.Props.C03Bulk", "OW.Props.C03Full"],
+    props_modules=["OW.Props.C03", "OW.Props.C03Bulk", "OW.Props.C03Full", "OW.Props.C03Entry", "OW.Props.C03EntryNd"],
     pre_steps=[build_cabi, genidx_step],
     families=[Family("NDPAIR"), Family("ND", args=["prop=C03"], label="ND-c"),
               Family("CABI", rtol=1e-9, atol_scale=1e-12, tol_by_model=TOL_BY_MODEL, args=["models=" + ",".join(ALL_MODELS), "n=10"] + EXTRA_ARGS)],
@@ -16,6 +16,8 @@ CHECK = Check(
         "(same program on Go-backed and C-backed roots, both runs compared with the model; canary guard zones around every C buffer "
         "checked after every operation) and ND programs on C roots",
         "memory safety of the real process: theorems c_inbounds_get / c_inbounds_set / c_never_oob / c_never_oob_off on the model (in-range requests) + canaries on the sampled runs; Go unsafe.Pointer semantics trusted",
+        "hand-written Lean model OW/Sim/CEntry.lean of libopenwater/single.go (62 lines: catalogue lookup, wrapping of the four caller buffers, "
+        "InitialiseStates when initStates, Run = Sim.run, CopyFrom back when the states pointer is non-NULL), tied to the code by the CABI family below",
         "C entry point: libopenwater.so built from the current tree and called from a C program (harness/cabi/driver.c) with guard zones around "
         "all four caller buffers, for every catalogued model; results compared bit for bit with the Go-API run of the same case and with the "
         "wrapper model (family CABI)",
@@ -31,13 +33,32 @@ CHECK = Check(
                  "(hand-written per rank in the template; modelled, in the ND / NDPAIR correspondence, not in Op), MustReshape (= reshape + panic on error; "
                  "rel_mustReshape is proved separately, not part of a program), NewArray / the root constructors (world_of_roots gives the initial relation)",
                  "two-array operations (applySlice, copyFrom, zipWithInto) between DIFFERENT storages on both sides (overlap = known finding KF-C03-overlap)",
+                 "centry_eq_goapi: every caller buffer holds exactly the product of its extents (BufsOK); a NULL states pointer only with initStates or an "
+                 "empty states array (NullOK; otherwise the model gives the nil panic); with initStates and a states pointer, nStates = the width of the "
+                 "library-initialised states (fixed for all catalogued kernels but those whose state width depends on a parameter: centry_eq_goapi_fixed_width); "
+                 "non-negative extents (C ints modelled as Nat)",
                  "one element type on both sides: for the int / uint instantiations the C side holds 32-bit elements, so the statements hold for values within "
                  "32 bits (otherwise KF-C03-c-int-width, scope NDPAIR:c-int-width / ND:c-int-width; OW/Nd/CInt.lean narrow32_id_*)"],
-    partial=["cabi_eq_goapi (DESIGN C03-T3, clause 3 of the property: RunSingleModel through the C entry point = the Go-API run): NO THEOREM. "
-             "libopenwater/single.go (wrapping the caller buffers as C-backed arrays of shape [nCells,nStates] etc., the `states != nil` guard, "
-             "InitialiseStates + CopyFrom when initStates) is not modelled; the view-level wrapper theorems (C04Nd RootOn) are stated for Go-backed roots "
-             "(isC = false). The C entry point is tied by the CABI correspondence only (sampled: every catalogued model, libopenwater.so called from a C "
-             "program with guard zones, compared bit for bit with the Go-API run and with the wrapper model)",
+    partial=["clause 3 (DESIGN C03-T3 cabi_eq_goapi): PROVED AT THE LIST LEVEL as centry_eq_goapi (OW/Props/C03Entry.lean) over the model "
+             "OW/Sim/CEntry.lean of libopenwater/single.go (flat caller buffers with their ten extents, the initStates flag, the NULL states pointer; "
+             "catalogue miss = nil-func panic before any buffer is wrapped): for every catalogue, kernel, spec, extents and flags, with buffers sized by "
+             "their extents, the outputs buffer and (pointer non-NULL) the states buffer after the call are the row-major flattening of what Sim.run "
+             "returns on the wrapped arrays (from InitialiseStates(nCells) when initStates), parameters / inputs unchanged, same panic class, no store "
+             "outside the states buffer. BOTH SIDES SHARE THE KERNEL RUN Sim.run BY CONSTRUCTION (single.go calls the model's own Run): what is proved "
+             "is the glue — buffer <-> array (flat*_unflat*, unflat*_flat*), shape preservation of Run (run_shape), the initStates path and its "
+             "unchecked row-by-row copy-back (copyBack_exact / copyBack_narrow / copyBack_wide_oob), the frame (centry_frame), errors "
+             "(centry_unknown_model, centry_error, centry_ok_iff). Hypothesis of the initStates case: nStates = the width of the states the library "
+             "initialises (a narrower caller buffer is silently overrun — copyBack_wide_oob; the caller's obligation, as the buffer sizes)",
+             "clause 3, VIEW LEVEL: only PART is proved (OW/Props/C03EntryNd.lean): RootOnC / rootOnC_fromC (a caller buffer wrapped by fromC is a C-backed "
+             "root) and c_cell_views_states / c_cell_views_outputs / c_cell_views_inputs (the template's per-cell state, output and input views on C-backed "
+             "roots are the caller's own pointer from position i*nS / (i*nO+o)*T' / ((i%nIn)*nI+k)*T — the input chain through the offset root its first "
+             "reshape returns; Get1 / Set1 through them are Get / Set of the root at [i,s] / [i,o,t] / [i%nIn,k,t], inside the buffer). NOT "
+             "proved: the parameter views on C roots, and the composition into the "
+             "goroutine / Run on C-backed roots — C04Nd.runNd_refines (view level = list level) is stated for Go-backed roots (RootOn, isC = false), and the "
+             "initStates case mixes Go-backed states with C-backed inputs / outputs. So the step 'Run on C-backed roots = Sim.run on the row-major lists' "
+             "rests on runNd_refines (Go-backed) + observational_equivalence over Op (the wrapper's Get1 / Set1 / Apply1 are outside Op) + the CABI "
+             "correspondence (sampled: every catalogued model, libopenwater.so called from a C program with guard zones, compared bit for bit with the "
+             "Go-API run and with the wrapper model)",
              "observational_equivalence (C03Full) supersedes the _partial versions of C03Bulk for programs over Op: no excluded case is left THERE"],
 )
 
@@ -48,7 +69,10 @@ META = dict(
          "rel_applySlice / rel_copyFrom / rel_unroll / rel_extremum / rel_zipWithInto / rel_reshape*, whole programs: observational_equivalence, "
          "observational_equivalence_roots), and every address a C-backed reachable view reads or writes for an in-range request lies inside the "
          "caller's buffer (c_inbounds_get, c_inbounds_set, c_never_oob, c_never_oob_off). Clause 3 (RunSingleModel through the C entry point = Go API) "
-         "has NO theorem: libopenwater/single.go is not modelled; it is decided by the CABI correspondence (sampled). Model tied to the code by lock-step "
+         "is a theorem at the list level (centry_eq_goapi over the model OW/Sim/CEntry.lean of libopenwater/single.go: outputs / states buffers after the call = "
+         "row-major flattening of the Go-API result, also when the library initialises the states; parameters / inputs untouched; same panics; the kernel run is "
+         "shared by both sides by construction, the theorem is about the glue) and, at the view level, for the per-cell state / output views on C-backed roots "
+         "(c_cell_views_states / _outputs / _inputs); the whole Run on C-backed roots is not composed (declared) and rests on the CABI correspondence (sampled). Model tied to the code by lock-step "
          "runs of the same operation sequence on both back-ends with guard zones, and by the C ABI runs of all catalogued models.",
     design_ref="DESIGN.md §6 C03",
     note="Trusted: Lean kernel + 3 standard axioms; Go unsafe pointer semantics; canaries detect only writes near the buffer. Known findings: "
